@@ -103,3 +103,16 @@ CASES += [
       "        dd, SS = numpy.linalg.eigh(self._data)\n        return SS        \n",
       "        dd, vecs = numpy.linalg.eigh(self._data)\n        SS = vecs\n        return SS        \n"),
 ]
+
+_SBI14 = "quantarhei/qm/liouvillespace/systembathinteraction.py"
+_AB14 = "quantarhei/builders/aggregate_base.py"
+CASES += [
+    {"name": "reorganisation-energy getter shifts the index once more when the interaction belongs to a system (seeded change of round 8)",
+     "kind": "mutant", "rule": "C14-G", "edits": [
+        (_SBI14, "            if j is None:\n                j = i\n            return self.CC.get_reorganization_energy(i,j)\n",
+                 "            if j is None:\n                j = i\n            if self.system is not None:\n                i, j = i-1, j-1\n            return self.CC.get_reorganization_energy(i,j)\n", 1)]},
+    {"name": "both sides moved to counting with the ground state", "kind": "twin", "edits": [
+        (_SBI14, "            if j is None:\n                j = i\n            return self.CC.get_reorganization_energy(i,j)\n",
+                 "            if j is None:\n                j = i\n            return self.CC.get_reorganization_energy(i-1,j-1)\n", 1),
+        (_AB14, "                                                self.elinds[start+i]-1)", "                                                self.elinds[start+i])", 1)]},
+]
